@@ -9,7 +9,9 @@ V = os.path.dirname(os.path.dirname(os.path.abspath(__file__)))
 def sh(cmd, cwd=None):
     return subprocess.run(cmd, shell=True, cwd=cwd, stdout=subprocess.PIPE, stderr=subprocess.STDOUT, text=True)
 def main():
-    wid = sys.argv[1]; props = sys.argv[2:]
+    args = [a for a in sys.argv[1:] if not a.startswith("--")]
+    checks_only = "--checks-only" in sys.argv; confirm_only = "--confirm-only" in sys.argv
+    wid = args[0]; props = args[1:]
     wt = f"/tmp/wt/{wid}"
     env = f"export CARGO_TARGET_DIR={wt}/target CARGO_NET_OFFLINE=true; "
     patch = open(f"{wt}/patch.diff").read()
@@ -17,6 +19,15 @@ def main():
     assert demo, "no demo"
     demo_name = demo[0][:-3]
     rec = {"worktree": wid, "properties": props}
+    d = f"{V}/seeded/{wid}"
+    try: rec.update(json.load(open(f"{d}/meta.json")).get("confirmed", {}))
+    except Exception: pass
+    if not checks_only:
+        confirm(wt, env, demo_name, rec)
+    if not confirm_only:
+        run_checks(wt, props, rec)
+    store(wt, d, demo, demo_name, rec)
+def confirm(wt, env, demo_name, rec):
     # 1a. suite with change: everything but the demo passes
     r = sh(env + "cargo test --workspace --no-fail-fast --offline 2>&1 | grep -E '^test result|Running|FAILED' ", cwd=wt)
     lines = r.stdout.splitlines()
@@ -34,6 +45,7 @@ def main():
     r = sh(env + f"cargo test --offline -p rasn-compiler-tests --test {demo_name} 2>&1 | grep -E '^test result'", cwd=wt)
     rec["demo_passes_without_change"] = "test result: ok" in r.stdout
     sh("git apply patch.diff", cwd=wt)
+def run_checks(wt, props, rec):
     # 2. our checks
     assert sh("git -C /repo status --porcelain --untracked-files=no").stdout.strip() == "", "repo dirty"
     a = sh(f"git -C /repo apply {wt}/patch.diff")
@@ -46,8 +58,8 @@ def main():
             rec[p] = {"exit": r.returncode, "violations": len(vio), "first_keys": keys}
     finally:
         sh("git -C /repo checkout -- .")
+def store(wt, d, demo, demo_name, rec):
     # 3. store
-    d = f"{V}/seeded/{wid}"
     os.makedirs(d, exist_ok=True)
     shutil.copy(f"{wt}/patch.diff", d)
     shutil.copy(f"{wt}/rasn-compiler-tests/tests/{demo[0]}", d)
